@@ -13,7 +13,7 @@ R17.8 per-key provider lists are touched only by order-preserving operations; in
 """
 import re
 from paths import refine_cuts
-from common import short, proj_roots, from_field, slice_locals, polarity, closure_returns, closure_arg
+from common import nested_closures, short, proj_roots, from_field, slice_locals, polarity, closure_returns, closure_arg
 import guards
 
 EXPLANATION = ("Bounded-growth and freshness guards over all MIR CFG paths of MemoryStore: each growth construct of the record / provider maps "
@@ -243,30 +243,53 @@ def r17_5(ctx, fx):
                 exits_some = [n for n, sh in fn.exits() if n in r and not all(s.startswith("None") for s in sh)]
                 ctx.ob("R17.5", "get/expired-edge-returns-None-and-removes", not exits_some and any(c.node in r for c in rem), site=fn.site(sw), cfg=fx.cfg,
                        detail="exits on the expired edge that may return a record: %s" % [fn.site(n) for n in exits_some])
-    # get_providers
+    # get_providers: the expired providers are pruned (retain keeps exactly the unexpired) before anything is returned for a key that
+    # is present - whether the pruning is a closure handed to `get_mut(key).is_some_and(..)` or the Some arm of a match on `get_mut(key)`
     fn = ctx.fn(fx, MS + "get_providers", "R17.5")
-    cl0 = ctx.fn(fx, MS + "get_providers::{closure#0}", "R17.5")
-    cl00 = ctx.fn(fx, MS + "get_providers::{closure#0}::{closure#0}", "R17.5")
-    if fn is not None and cl0 is not None and cl00 is not None:
-        rets = closure_returns(cl00)
-        ok = bool(rets) and all(r is not None and r[0] == -1 and r[1].matches(r"ProviderRecord::is_expired$") for r in rets)
-        ctx.ob("R17.5", "get_providers/retain-closure-keeps-exactly-the-unexpired", ok, site=cl00.site(cl00.entry), cfg=fx.cfg, detail=str(rets))
-        ret = cl0.calls(r"Vec::retain$")
-        r = cl0.reach([cl0.entry], avoid=[c.node for c in ret])
-        bad = [n for n in cl0.return_nodes() if n in r]
-        ctx.ob("R17.5", "get_providers/retain-on-every-path-of-the-pruning-closure", bool(ret) and not bad, site=cl0.site(cl0.entry), cfg=fx.cfg)
-        # the pruning closure is the one handed to is_some_and on provider_keys.get_mut, and that call dominates every exit
-        isa = [c for c in fn.calls(r"Option::is_some_and$") if any(r[0] == "call" and r[1].endswith("HashMap::get_mut") for r in fn.roots(c.args[0]))]
-        ctx.anchor("R17.5", "get_providers: provider_keys.get_mut(key).is_some_and(prune)", len(isa), 1, cfg=fx.cfg)
-        if isa:
-            r = fn.reach([fn.entry], avoid=[isa[0].node])
-            bad = [n for n, _ in fn.exits() if n in r]
-            clo = any(("const", "fn:" + cl0.key) in fn.roots(a) or any(x[0] == "const" and "get_providers::{closure#0}" in str(x[1]) for x in fn.roots(a)) for a in isa[0].args[1:])
-            ctx.ob("R17.5", "get_providers/pruning-dominates-every-exit", not bad, site=fn.site(isa[0].node), cfg=fx.cfg)
-            ctx.ob("R17.5", "get_providers/pruning-closure-is-the-retain-closure", clo or closure_arg(fn, isa[0], "get_providers::{closure#0}"), site=fn.site(isa[0].node), cfg=fx.cfg,
-                   detail="roots: %s" % [sorted(guards.rootstrs(fn, a)) for a in isa[0].args[1:]])
-
-
+    if fn is not None:
+        holders = [fn] + nested_closures(fx, fn)
+        for h in holders:
+            ctx.bodies.add((fx.cfg, h.key))
+        preds = [h for h in holders[1:] if h.ret == "bool" and h.calls(r"ProviderRecord::is_expired$")]
+        ctx.anchor("R17.5", "get_providers: retain predicate (closure calling ProviderRecord::is_expired)", len(preds), 1, cfg=fx.cfg)
+        for cl00 in preds[:1]:
+            rets = closure_returns(cl00)
+            ok = bool(rets) and all(r is not None and r[0] == -1 and r[1].matches(r"ProviderRecord::is_expired$") for r in rets)
+            ctx.ob("R17.5", "get_providers/retain-closure-keeps-exactly-the-unexpired", ok, site=cl00.site(cl00.entry), cfg=fx.cfg, detail=str(rets))
+        retains = [(h, c) for h in holders for c in h.calls(r"Vec(<.*>)?::retain$")]
+        ctx.anchor("R17.5", "get_providers: Vec::retain", len(retains), 1, cfg=fx.cfg)
+        for cl0, rc in retains[:1]:
+            if cl0 is fn:
+                gm = [c for c in fn.calls(r"HashMap(<.*>)?::get_mut$") if ".provider_keys" in fn.recv(c)]
+                ctx.anchor("R17.5", "get_providers: provider_keys.get_mut(key)", len(gm), 1, cfg=fx.cfg)
+                cut = set()
+                for c in gm:
+                    cp = fn.copies_of(c.dest[0]) | {c.dest[0]}
+                    for sw in fn.discr_switches():
+                        if sw[1] and sw[1][0] in cp and len(sw[1]) == 1:
+                            cut |= {(sw[0], l) for l in fn.variant_edges(sw, "None") if l not in fn.variant_edges(sw, "Some")}
+                r = fn.reach([fn.entry], avoid=[rc.node], cut=cut)
+                bad = [n for n, _ in fn.exits() if n in r]
+                ctx.ob("R17.5", "get_providers/retain-on-every-path-of-the-pruning-closure", bool(gm) and bool(cut), site=fn.site(rc.node), cfg=fx.cfg,
+                       detail="pruning written in the Some arm of the match on provider_keys.get_mut(key)")
+                ctx.ob("R17.5", "get_providers/pruning-dominates-every-exit", bool(cut) and not bad, site=fn.site(rc.node), cfg=fx.cfg,
+                       detail="exits reachable for a present key without the retain: %s" % [fn.site(n) for n in bad])
+                continue
+            ret = cl0.calls(r"Vec(<.*>)?::retain$")
+            r = cl0.reach([cl0.entry], avoid=[c.node for c in ret])
+            bad = [n for n in cl0.return_nodes() if n in r]
+            ctx.ob("R17.5", "get_providers/retain-on-every-path-of-the-pruning-closure", bool(ret) and not bad, site=cl0.site(cl0.entry), cfg=fx.cfg)
+            # the pruning closure is the one handed to is_some_and on provider_keys.get_mut, and that call dominates every exit
+            isa = [c for c in fn.calls(r"Option::is_some_and$") if any(r[0] == "call" and r[1].endswith("HashMap::get_mut") for r in fn.roots(c.args[0]))]
+            ctx.anchor("R17.5", "get_providers: provider_keys.get_mut(key).is_some_and(prune)", len(isa), 1, cfg=fx.cfg)
+            if isa:
+                r = fn.reach([fn.entry], avoid=[isa[0].node])
+                bad = [n for n, _ in fn.exits() if n in r]
+                tail = cl0.key[len(fn.key) - len("get_providers"):]
+                clo = any(("const", "fn:" + cl0.key) in fn.roots(a) or any(x[0] == "const" and tail in str(x[1]) for x in fn.roots(a)) for a in isa[0].args[1:])
+                ctx.ob("R17.5", "get_providers/pruning-dominates-every-exit", not bad, site=fn.site(isa[0].node), cfg=fx.cfg)
+                ctx.ob("R17.5", "get_providers/pruning-closure-is-the-retain-closure", clo or closure_arg(fn, isa[0], tail), site=fn.site(isa[0].node), cfg=fx.cfg,
+                       detail="roots: %s" % [sorted(guards.rootstrs(fn, a)) for a in isa[0].args[1:]])
 
 
 def _flows_to_ret(fn, c):
